@@ -239,8 +239,11 @@ func (matrix *DenseReal32Matrix) SetIdentity() {
   }
 }
 func (matrix *DenseReal32Matrix) Reset() {
-  for i := 0; i < len(matrix.values); i++ {
-    matrix.values[i].Reset()
+  // reset only the elements of this view
+  for i := 0; i < matrix.rows; i++ {
+    for j := 0; j < matrix.cols; j++ {
+      matrix.values[matrix.index(i, j)].Reset()
+    }
   }
 }
 func (matrix *DenseReal32Matrix) Row(i int) Vector {
